@@ -38,20 +38,22 @@ def udp_scenario(ctx, backend, sockets, rnd, trace, run_id):
 
         def connect(name):
             r = drv.send(name, connect_req(drv.next_txid()), {"class": "connect_ok", "conn": "none", "txid": drv.txid}, True)
-            if not r:
-                raise ToolError("no connect reply for %s (%s/%s)" % (name, backend, sockets))
+            if not r or r.get("kind") != "connect":
+                # the tracker is up (readiness was probed): an unanswered connect is data - the pending
+                # request is rejected at the next quiet event - and this client takes no further part
+                return False
             ids[name] = r["conn_id"]
+            return True
 
-        for c in clients:
-            connect(c)
+        clients = [c for c in clients if connect(c)]
         if sockets == "both_dual":
             # the same IPv4 hosts once more, through the dual-stack socket
             for nm, ip in (("A2", "127.0.0.2"), ("B2", "127.0.0.3")):
                 drv.client(ip, nm)
                 drv.socks[nm].server = ("127.0.0.1", port2)
                 drv.mapped = getattr(drv, "mapped", set()) | {nm}
-                connect(nm)
-                clients.append(nm)
+                if connect(nm):
+                    clients.append(nm)
         orig_src = drv.src_of
 
         def src_of(name):
@@ -81,7 +83,7 @@ def udp_scenario(ctx, backend, sockets, rnd, trace, run_id):
                 scr(c, [1, 2])
                 n += 1
         # the same (host, port) announced through both paths is one peer; then it stops through the other path
-        if sockets == "both_dual":
+        if sockets == "both_dual" and all(x in ids for x in ("A", "A2", "B", "B2")):
             ann("A", 2, 6100, 0)
             ann("A2", 2, 6100, 0x08080808)
             ann("B", 2, 6200, 0)
